@@ -60,9 +60,10 @@ theorem pg_str_str (m : Mode) (op : Op) (s t : Str) :
   refine ⟨?_, ?_, ?_, ?_, ?_, ?_⟩ <;> gp_simp <;>
     (cases op <;> simp [six, Op.swap, strLtS, strEqS, strLt] <;> grind)
 
-theorem pg_ua_ua (m : Mode) (op : Op) (s t : Str) (h : op.isOrd = false) :
+theorem pg_ua_ua (m : Mode) (op : Op) (s t : Str) :
     pairGeneral m op (.ua s) (.ua t) = pairSpec m op (.ua s) (.ua t) := by
-  cases op <;> simp [Op.isOrd] at h <;> gp_simp <;> simp [Op.isOrd, six, strLtS, strEqS, strLt]
+  gp_simp
+  rfl
 
 theorem strToBool_cases (s : Str) :
     (strToBool s = .ok true ∧ castBool s = .ok true) ∨ (strToBool s = .ok false ∧ castBool s = .ok false) ∨
@@ -118,6 +119,15 @@ theorem pg_ua_temporal (m : Mode) (op : Op) (s : Str) (b : Atom) (hb : isTempora
   by_cases hn : notTemporalLexical s = true
   · cases b <;> simp [isTemporal, Atom.isDT, Atom.isDur] at hb <;> gp_simp <;> simp [hn]
   · cases b <;> simp [isTemporal, Atom.isDT, Atom.isDur] at hb <;>
+      exact absurd (by gp_simp; simp [hn]) h5
+
+/-- a date/time/duration (left) against untypedAtomic: `fromstring` of the untyped value -/
+theorem pg_temporal_ua (m : Mode) (op : Op) (s : Str) (a : Atom) (ha : isTemporal a = true)
+    (h5 : pairSpec m op a (.ua s) ≠ .error .unsupported) :
+    pairGeneral m op a (.ua s) = pairSpec m op a (.ua s) := by
+  by_cases hn : notTemporalLexical s = true
+  · cases a <;> simp [isTemporal, Atom.isDT, Atom.isDur] at ha <;> cases op <;> gp_simp <;> simp [hn, PyR.map]
+  · cases a <;> simp [isTemporal, Atom.isDT, Atom.isDur] at ha <;>
       exact absurd (by gp_simp; simp [hn]) h5
 
 /-- two binaries of the same kind through the Python protocol (any fuel ≥ 2) -/
@@ -258,15 +268,15 @@ theorem valueOp_bin_swap (bo : Bool) (op : Op) (x y : List Nat) :
     valueOp bo op.swap (.b64 y) (.b64 x) = valueOp bo op (.b64 x) (.b64 y) := by
   constructor <;> cases op <;> cases bo <;> simp [valueOp, numRank, isEqNe, Op.swap, six] <;> grind
 
-theorem pairGeneral_ua_left (m : Mode) (op : Op) (s : Str) (b : Atom) :
+theorem pairGeneral_ua_left (m : Mode) (op : Op) (s : Str) (b : Atom) (hb : isUA b = false) :
     pairGeneral m op (.ua s) b = liftPy (pyOp m op (.ua s) b) := by
-  simp [pairGeneral, iterCheck]
+  cases b <;> simp_all [pairGeneral, iterCheck, isUA]
 
 /-- untypedAtomic against hexBinary / base64Binary, either side -/
 theorem pg_ua_hex (m : Mode) (op : Op) (s : Str) (y : List Nat)
     (h5 : pairSpec m op (.ua s) (.hex y) ≠ .error .unsupported) :
     pairGeneral m op (.ua s) (.hex y) = pairSpec m op (.ua s) (.hex y) := by
-  rw [pairGeneral_ua_left, pyOp_ua_hex]
+  rw [pairGeneral_ua_left _ _ _ _ rfl, pyOp_ua_hex]
   by_cases hw : hasInnerWs s = true
   · exact absurd (by simp [pairSpec, castUntyped, hw]) h5
   · cases hd : hexDecode (strip s) with
@@ -302,7 +312,7 @@ theorem castUntyped_b64 (s : Str) (y : List Nat) : castUntyped s (.b64 y) = cast
 theorem pg_ua_b64 (m : Mode) (op : Op) (s : Str) (y : List Nat)
     (h5 : pairSpec m op (.ua s) (.b64 y) ≠ .error .unsupported) :
     pairGeneral m op (.ua s) (.b64 y) = pairSpec m op (.ua s) (.b64 y) := by
-  rw [pairGeneral_ua_left, pyOp_ua_b64]
+  rw [pairGeneral_ua_left _ _ _ _ rfl, pyOp_ua_b64]
   rcases b64_cases s with ⟨h1, h2⟩ | ⟨h1, h2⟩ | ⟨h1, h2⟩
   · simp [h1, pairSpec, castUntyped_b64 s y, h2, (bin_protocol m op [] y 4).2]
   · simp [h1, pairSpec, castUntyped_b64 s y, h2, liftPy]
@@ -338,7 +348,7 @@ macro "lenient_contra" h3:ident : tactic => `(tactic|
         isUri, isInteger, isBoolA, binOrdered, isEqNe, Atom.isDur] at $h3:ident; done))
 
 set_option maxHeartbeats 4000000 in
-theorem pairGeneral_conforms (m : Mode) (op : Op) (a b : Atom) (hm : m.compat = false)
+theorem pairGeneral_conforms (m : Mode) (op : Op) (a b : Atom)
     (h1 : trigTol false op a b = false) (h2 : trigPromotion false a b = false)
     (h3 : trigLenient m op a b = false) (h4 : trigUntyped op a b = false)
     (h5 : pairSpec m op a b ≠ .error .unsupported) (h6 : pairGeneral m op a b ≠ .error .unsupported)
@@ -355,8 +365,67 @@ theorem pairGeneral_conforms (m : Mode) (op : Op) (a b : Atom) (hm : m.compat = 
         | (simp [trigUntyped] at h4; done)
         | (gp_simp; done)
         | skip
-      all_goals trace_state
-      all_goals sorry
-  | none => sorry
+      case int.ua v s =>
+        simp [trigPromotion, promRank, numRank, exactVal, castNum] at h2
+        exact pg_num_ua m op s _ (.fin v) (Or.inl ⟨v, rfl, rfl, h2⟩) h5
+      case dbl.ua d s => exact pg_num_ua m op s _ d (Or.inr rfl) h5
+  | none =>
+    cases a <;> simp [numRank] at hi <;> cases b <;>
+      first
+      | lenient_contra h3
+      | (simp [trigUntyped, isTemporal, Atom.isDT, Atom.isDur] at h4; done)
+      | (gp_simp; done)
+      | skip
+    case str.str s t => exact (pg_str_str m op s t).1
+    case str.uri s t => exact (pg_str_str m op s t).2.1
+    case uri.str s t => exact (pg_str_str m op s t).2.2.1
+    case uri.uri s t => exact (pg_str_str m op s t).2.2.2.1
+    case str.ua s t => exact (pg_str_str m op s t).2.2.2.2.1
+    case ua.str s t => exact (pg_str_str m op s t).2.2.2.2.2
+    case ua.ua s t => exact pg_ua_ua m op s t
+    case ua.int s v =>
+      simp [trigPromotion, promRank, numRank, exactVal, castNum] at h2
+      exact pg_ua_num m op s _ (.fin v) (Or.inl ⟨v, rfl, rfl, h2⟩) h5
+    case ua.dbl s d => exact pg_ua_num m op s _ d (Or.inr rfl) h5
+    case ua.bool s y => exact (pg_ua_bool m op s y).1
+    case bool.ua y s => exact (pg_ua_bool m op s y).2
+    case ua.uri s t => exact pg_ua_uri m op s t h6
+    case uri.ua s t => exact pg_uri_ua m op s t h4 h5
+    case ua.qn => exact absurd (by simp [pairSpec, castUntyped]) h5
+    case qn.ua => exact absurd (by simp [pairSpec, castUntyped]) h5
+    case ua.date => exact pg_ua_temporal m op _ _ rfl h5
+    case ua.dtm => exact pg_ua_temporal m op _ _ rfl h5
+    case ua.time => exact pg_ua_temporal m op _ _ rfl h5
+    case ua.dur => exact pg_ua_temporal m op _ _ rfl h5
+    case ua.ymd => exact pg_ua_temporal m op _ _ rfl h5
+    case ua.dtd => exact pg_ua_temporal m op _ _ rfl h5
+    case ua.hex s y => exact pg_ua_hex m op s y h5
+    case ua.b64 s y => exact pg_ua_b64 m op s y h5
+    case date.ua => exact pg_temporal_ua m op _ _ rfl h5
+    case dtm.ua => exact pg_temporal_ua m op _ _ rfl h5
+    case time.ua => exact pg_temporal_ua m op _ _ rfl h5
+    case dur.ua => exact pg_temporal_ua m op _ _ rfl h5
+    case ymd.ua => exact pg_temporal_ua m op _ _ rfl h5
+    case dtd.ua => exact pg_temporal_ua m op _ _ rfl h5
+    case hex.ua x s => exact pg_hex_ua m op s x h5
+    case b64.ua x s => exact pg_b64_ua m op s x h5
+    case hex.hex x y =>
+      have : pairGeneral m op (.hex x) (.hex y) = liftPy (pyBinop m op (.hex x) (.hex y) (6 + 2)) := by
+        simp [pairGeneral, iterCheck, pyOp]
+      rw [this, (bin_protocol m op x y 6).1]; rfl
+    case b64.b64 x y =>
+      have : pairGeneral m op (.b64 x) (.b64 y) = liftPy (pyBinop m op (.b64 x) (.b64 y) (6 + 2)) := by
+        simp [pairGeneral, iterCheck, pyOp]
+      rw [this, (bin_protocol m op x y 6).2]; rfl
+    all_goals
+      cases op <;> first
+        | lenient_contra h3
+        | (simp [ymdOrd, Op.isOrd] at h7; done)
+        | (gp_simp; done)
+        | (gp_simp; simp [six, durCmp4_dtd, iCmp, cmpBy, PyR.map, Op.swap]; done)
+        | (gp_simp; simp [six, durCmp4_dtd, iCmp, cmpBy, PyR.map, Op.swap]; grind)
+        | (gp_simp; rename_i x y; cases x <;> cases y <;> decide +kernel)
+        | (gp_simp; simp [six, durCmp4_dtd, iCmp, cmpBy, PyR.map, Op.swap]; rename_i s t; by_cases h : s = t <;> simp [h] <;> grind)
+        | skip
 
 end EPV.Cmp
